@@ -9,10 +9,11 @@ GROUP = dict(
     opaque_by_value=[PV, ETL],
     outside_methods={PV: ['begin', 'end', 'data', 'size', 'resize']},
     extern_re=[r'EnumerableThreadLocal<.*>::', r'PageAllocator::allocate', r'PageAllocator::deallocate', r'PageAllocator::page_size'],
-    roots=[{'name': B + '::allocate', 'sig': 'void *()'}],
+    roots=[{'name': B + '::allocate', 'sig': 'void *()'}, B + '::~BatchPageAllocator', {'lambda_in': B + '::~BatchPageAllocator', 'ordinal': 1}],
     reviewed_compiler_conditionals=[],
-    assumptions=['std::vector<void*> is a ghost stub (typed array, length, resize within the model capacity); EnumerableThreadLocal::local() returns the calling thread\'s private slot (stub)', 'upstream allocate(pages, n) writes n fresh pages into pages[0..n) (tokens); batch size >= 1'],
+    assumptions=['std::vector<void*> is a ghost stub (typed array, length, resize within the model capacity); EnumerableThreadLocal::local() returns the calling thread\'s private slot (stub)', 'the per-slot lambda of the destructor is not under contract (assumed: handles every slot of its range once)', 'upstream allocate(pages, n) writes n fresh pages into pages[0..n) (tokens); batch size >= 1'],
     jobs=[
+        dict(id='C17.batch.dtor', enforce='BatchPageAllocator_dtor', replace=['BatchPageAllocator_dtor_lambda_page_allocator_dtor_BatchPageAllocator_1_op_call'], backend='cadical', defines=['VF_BATCH_DTOR 1'], covers=['g_slots_total > 3']),
         dict(id='C17.batch.allocate', enforce='BatchPageAllocator_allocate__void', backend='cadical',
              covers=['g_batches == 1 && g_last_n > 3', 'g_batches == 0']),
     ],
